@@ -66,8 +66,17 @@ func GetIPAtIndex(ipNet net.IPNet, index int64) net.IP {
 		val.SetBytes(ip)
 	}
 	val.Add(val, big.NewInt(index))
-	if ipNet.Contains(val.Bytes()) {
-		return val.Bytes()
+	size := net.IPv6len
+	if ip.To4() != nil {
+		size = net.IPv4len
+	}
+	// big.Int.Bytes drops leading zero bytes, restore the address length
+	if val.Sign() < 0 || val.BitLen() > size*8 {
+		return nil
+	}
+	result := net.IP(val.FillBytes(make([]byte, size)))
+	if ipNet.Contains(result) {
+		return result
 	}
 	return nil
 }
